@@ -47,6 +47,8 @@ pub fn cli_documents() -> Vec<String> {
         "```scrut {output_stream: stderr}\n$ echo to-stdout; echo to-stderr >&2; (exit 3)\nto-stderr\n```\n", // stderr selected, exit code changed
         "```scrut {output_stream: stderr}\n$ echo to-stdout; echo to-stderr >&2\nstale\n```\n",             // stderr selected, output changed
         "```scrut {output_stream: combined}\n$ echo to-stdout; echo to-stderr >&2; (exit 3)\nto-stdout\n```\n", // combined, output and exit code changed
+        // the unmatched `x` goes; without it the multiline glob hands over one line earlier, the first update does not settle
+        "```scrut\n$ printf '%s\\n' a1 a2 b\na* (glob+)\nx\n* (glob)\n```\n",
     ];
     let prose = ["# Title\n\nSome ``inline`` prose\n\n", "---\ndefaults:\n  keep_crlf: false\n---\n\n", "```bash\n$ not a test\n```\n\n", "trailing text without newline"];
     let mut docs = vec![];
@@ -383,7 +385,8 @@ fn check_cli(case: &UpdCase, doc: &str) -> CaseResult {
     let path = sb.write("doc.md", doc.as_bytes());
     let fail = |res: &mut CaseResult, clause: &str, exp: String, obs: String| {
         if res.findings.is_empty() {
-            res.findings.push(Finding::new("C10", clause, exp, format!("{obs}; document = {doc:?}")));
+            let f = Finding::new("C10", clause, exp, format!("{obs}; document = {doc:?}"));
+            res.findings.push(if doc.contains("a* (glob+)\nx\n* (glob)") { f.tag("dropped-expectation-between-multiline-and-catch-all") } else { f });
         }
     };
     let reference = tokenize(doc);
